@@ -14,7 +14,9 @@ import vlib
 
 COQ_TARGET = "props/C15.v"
 THEOREMS = ["C15_cc_numbers", "C15_aliases", "C15_doc_copy_paste_not_aliases", "C15_rows_unique",
-            "C15_doc_commands_defined", "C15_voices", "C15_rpn_addresses", "C15_meta_types"]
+            "C15_doc_commands_defined", "C15_voices", "C15_rpn_addresses", "C15_meta_types",
+            "C15_cc_bytes", "C15_named_controller", "C15_program", "C15_tempo", "C15_timesig", "C15_bend", "C15_rpn_nrpn",
+            "C15_roland_checksum", "C15_resets", "C15_text", "C15_utf8", "C15_model_meets_prescription"]
 DRIVERS = ["cmd", "core"]
 RULE = ("one-command programs for every spelling of command.md that has a prescription (controllers, CC/y, Voice/@, "
         "Tempo, TimeSignature, text metas, Port, PitchBend/p, RPN/NRPN and their named commands, resets, master volume/"
@@ -98,7 +100,11 @@ def cases_for(ctx, name, presc, voices):
     def add(args, form=None, **kw):
         ch, rest = where(ctx, len(out))
         out.append(Case(name, args, ch=ch, rest=rest, form=form or forms[len(out) % 2 if len(args) == 1 else 0], **kw))
-    if kind in ("Controller", "Rpn", "Nrpn", "MasterVolume", "GsEffect"):
+    if kind in ("Rpn", "Nrpn"):
+        # read_rpn_command / read_nrpn_command take `(v)` only (`NAME=v` is reported as a syntax error)
+        for v in p7 + OOD7:
+            add([v], form="paren")
+    elif kind in ("Controller", "MasterVolume", "GsEffect"):
         for v in p7 + OOD7:
             add([v])
     elif kind == "ControlChange":
@@ -195,6 +201,7 @@ def text_cases(ctx, text_names):
 
 
 ALIAS_TEMPLATES = {
+    "End": ["c %s d", "c d e %s"],
     "Track": ["%s(2) c", "%s=3 c"], "Channel": ["%s(5) c", "%s(16) c"], "System.TimeBase": ["%s(48) c", "%s=480 c4"],
     "Rhythm": ["%s{ bhsh }", "%s{b4s8}"], "Rythm": ["%s{ bhsh }"], "Div": ["%s{ ceg }", "%s{cd}8"], "Sub": ["%s{c}e", "%s{ceg} d"],
     "System.KeyFlag": ["%s=(f) f", "%s+(c) c"], "KeyShift": ["%s(3) c", "%s=-2 c"], "TrackKey": ["%s(3) c"],
@@ -317,7 +324,7 @@ def alias_checks(ctx, groups, prescs, voices):
         if g in EXCEPT_GROUPS:
             ctx.dist["alias_group_excepted_doc_copy_paste"] = ctx.dist.get("alias_group_excepted_doc_copy_paste", 0) + 1
             continue
-        members = [n for n in g if n not in ("End", "END")]
+        members = list(g)
         progs = []
         p = next((prescs[n] for n in g if prescs.get(n, "NONE") != "NONE"), None)
         if p is not None:
@@ -399,6 +406,33 @@ def sysex_cases(ctx):
             ctx.oracle_fail("Roland checksum: address + data + checksum is not 0 modulo 128", src, h, "sum mod 128 = 0", input_text=src)
 
 
+def corpus_alias_pairs():
+    """corpus lines {"same": [src1, src2]}: two spellings that must give the same file"""
+    out = []
+    p = os.path.join(vlib.VERIF, "corpus", "C15.jsonl")
+    if os.path.exists(p):
+        for line in open(p, encoding="utf-8"):
+            if line.strip():
+                o = json.loads(line)
+                if "same" in o:
+                    out.append(o["same"])
+    return out
+
+
+def check_same(ctx, rows, origin):
+    lines = ["compile_ev\t%s" % vlib.enc_text(s) for row in rows for s in row]
+    got = ctx.impl(lines, stall=20)
+    at = 0
+    for row in rows:
+        res = ["\t".join(r.split("\t")[:3]) for r in got[at:at + len(row)]]
+        at += len(row)
+        ctx.count(origin, tuple(row))
+        for s, r in zip(row[1:], res[1:]):
+            if r != res[0] or len(got[at - len(row)].split("\t")) < 4:
+                ctx.oracle_fail("spellings of one documented command behave differently: %r vs %r" % (row[0], s),
+                                "compile_ev\t%s" % vlib.enc_text(s), r[:300], res[0][:300], input_text=s)
+
+
 def corpus_cases():
     out = []
     p = os.path.join(vlib.VERIF, "corpus", "C15.jsonl")
@@ -406,6 +440,8 @@ def corpus_cases():
         for line in open(p, encoding="utf-8"):
             if line.strip():
                 o = json.loads(line)
+                if "same" in o:
+                    continue
                 out.append(Case(o["name"], o.get("args", []), o.get("text"), o.get("ch", 0), o.get("rest", False),
                                 o.get("form", "paren"), "corpus", o.get("argsrc")))
     return out
@@ -425,6 +461,7 @@ def run(ctx):
     translator_check(ctx)
     names, groups, voices, prescs = tables(ctx)
     check_cases(ctx, corpus_cases())
+    check_same(ctx, corpus_alias_pairs(), "corpus")
     cases = []
     text_names = []
     for n in names + ["p", "y", "@"]:
